@@ -91,6 +91,7 @@ class KInterp:
         self.notes = []
         self.pit = {}            # (pit, rowkey, idxmod, col) -> value written during interpretation
         self.pit_order = []
+        self.res_writes = []     # stores into result tables
 
     # ------------------------------------------------------------------ entry
     def run(self, fi, args=None, param_syms=None):
@@ -151,7 +152,10 @@ class KInterp:
                 if c.func.attr == "append":
                     env[c.func.value.id] = env[c.func.value.id] + [v]
                 else:
-                    env[c.func.value.id] = env[c.func.value.id] + list(v)
+                    env[c.func.value.id] = env[c.func.value.id] + list(v.v if isinstance(v, PyVal) else v)
+                return
+            if isinstance(c, ast.Call):
+                self.eval(c, st)      # procedure call: effects on pit / result tables are recorded
                 return
             raise Unsupported("expression statement %s in %s" % (U(s)[:60], st["fi"].qualname))
         if isinstance(s, ast.Assign):
@@ -184,6 +188,12 @@ class KInterp:
         if isinstance(s, ast.Return):
             return self.ret(s, st)
         if isinstance(s, ast.Pass):
+            return
+        if isinstance(s, ast.Try):
+            # the no-exception path: body, then else, then finally
+            self.block(s.body, st)
+            self.block(s.orelse, st)
+            self.block(s.finalbody, st)
             return
         if isinstance(s, ast.Raise):
             st["kernel"].raises.append((st["G"], U(s.exc)[:80] if s.exc is not None else "re-raise"))
@@ -255,6 +265,11 @@ class KInterp:
                 self.ret(s.body[0], st2)
                 return
             if s.orelse:
+                key = "any:" + U(s.test)
+                if key in self.consts:
+                    return self.block(s.body if self.consts[key] else s.orelse, st)
+                if "any:*" in self.consts:
+                    return self.block(s.body if self.consts["any:*"] else s.orelse, st)
                 raise Unsupported("np.any/np.all test with else arm: %s" % U(s.test))
             # body consists of masked stores: executing it unconditionally is equivalent
             return self.block(s.body, st)
@@ -287,6 +302,21 @@ class KInterp:
             lv = s.target.elts[0].id
             extra[s.target.elts[1].id] = self.eval(it.args[0], st)
         else:
+            seq = self.eval(it, st)
+            if isinstance(seq, PyVal) and isinstance(seq.v, (list, tuple)):
+                seq = self._lift_pyconst(list(seq.v))
+            if isinstance(seq, (list, tuple)):
+                for item in seq:
+                    if isinstance(s.target, ast.Tuple):
+                        vals = item if isinstance(item, (list, tuple)) else None
+                        if vals is None or len(vals) != len(s.target.elts):
+                            raise Unsupported("unpacking in `for %s in %s`" % (U(s.target), U(it)))
+                        for tt, vv in zip(s.target.elts, vals):
+                            self.store(tt, vv, st, None)
+                    else:
+                        self.store(s.target, item, st, None)
+                    self.block(s.body, st)
+                return
             raise Unsupported("loop form `for %s in %s`" % (U(s.target), U(it)))
         G0 = st["G"]
         st["loopvars"] = st["loopvars"] | {lv}
@@ -376,7 +406,45 @@ class KInterp:
                     v = self.eval(value_expr, st)
                 env[name] = self._scatter(old, idx, v, G, t)
                 return
+        rt = self._res_target(t, st)
+        if rt is not None:
+            tbl, colname, sel = rt
+            if v is None:
+                st2 = dict(st, mask=sel) if isinstance(sel, BExpr) else st
+                v = self.eval(value_expr, st2)
+            self.res_writes.append({"table": tbl, "column": colname, "selector": sel, "value": v, "guard": G,
+                                    "node": t, "fi": st["fi"]})
+            return
         raise Unsupported("store target %s" % U(t))
+
+    def _res_target(self, t, st):
+        """res_table[<col>].values[<sel>]([<sel2>]) = ...  ->  (table expr, column, selector)"""
+        sels = []
+        cur = t
+        while isinstance(cur, ast.Subscript) and not (isinstance(cur.value, ast.Attribute) and cur.value.attr == "values"):
+            sels.append(cur.slice)
+            cur = cur.value
+        if not (isinstance(cur, ast.Subscript) and isinstance(cur.value, ast.Attribute) and cur.value.attr == "values"):
+            return None
+        sels.append(cur.slice)
+        inner = cur.value.value
+        if not isinstance(inner, ast.Subscript):
+            return None
+        colv = self.eval(inner.slice, st)
+        if not (isinstance(colv, PyVal) and isinstance(colv.v, str)):
+            return None
+        sel = BExpr.true()
+        for sl in sels:
+            if isinstance(sl, ast.Slice) and sl.lower is None and sl.upper is None:
+                continue
+            sv = self.eval(sl, st)
+            if isinstance(sv, BExpr):
+                sel = sel & sv
+            elif isinstance(sv, GExpr) and sv.plain() is not None:
+                sel = sel & BExpr.lit(("flag", "rows:" + repr(sv.plain().key())[:200]))
+            else:
+                raise Unsupported("result row selector %s" % U(sl))
+        return U(inner.value), colv.v, sel
 
     def _select(self, c, a, b):
         if isinstance(a, BExpr) or isinstance(b, BExpr):
@@ -392,6 +460,13 @@ class KInterp:
             return BExpr.true() if v.v else BExpr.false()
         if isinstance(v, GExpr) and v.plain() is not None and v.plain().is_const():
             return BExpr.true() if v.plain().const_value() != 0 else BExpr.false()
+        if isinstance(v, GExpr):
+            out = BExpr.false()
+            for g_, p_ in v.cases:
+                out = out | (BExpr([g_]) & b_ne0(p_))
+            return out
+        if isinstance(v, MaskedView):
+            return self._as_bool(v.base)
         raise Unsupported("value %r used as boolean" % (v,))
 
     def _as_num(self, v):
@@ -485,6 +560,15 @@ class KInterp:
                 return base.column(e.attr)
             if isinstance(base, GExpr) and base.plain() is not None:
                 # attribute of an opaque object (fluid.is_gas): a named flag / symbol
+                if self._is_param_sym(base):
+                    (m_, c_), = base.plain().terms.items()
+                    key = ".".join(str(x) for x in m_[0][0][1:]) + "." + e.attr
+                    if key in self.consts:
+                        return self._lift_const(self.consts[key])
+                    if key.replace("net.fluid", "fluid") in self.consts:
+                        return self._lift_const(self.consts[key.replace("net.fluid", "fluid")])
+                    if key == "net.fluid":
+                        return GExpr.of(Poly.sym("fluid"))
                 return GExpr.of(Poly.sym("attr", U(e)))
             raise Unsupported("attribute %s" % s)
         if isinstance(e, ast.UnaryOp):
@@ -505,6 +589,13 @@ class KInterp:
                 return self._as_num(v)
         if isinstance(e, ast.BinOp):
             a, b = self.eval(e.left, st), self.eval(e.right, st)
+            if isinstance(e.op, ast.Add) and isinstance(a, PyVal) and isinstance(b, PyVal) \
+                    and isinstance(a.v, str) and isinstance(b.v, str):
+                return PyVal(a.v + b.v)
+            if isinstance(e.op, ast.Add) and isinstance(a, list) and isinstance(b, list):
+                return a + b
+            if isinstance(e.op, ast.Mod) and isinstance(a, PyVal) and isinstance(a.v, str):
+                return PyVal(a.v % (b.v if isinstance(b, PyVal) else "?"))
             if isinstance(e.op, (ast.BitAnd, ast.BitOr)):
                 if isinstance(a, AnyOf) or isinstance(b, AnyOf):
                     raise Unsupported("combination of np.any results: %s" % U(e))
@@ -569,13 +660,21 @@ class KInterp:
     def _pow(self, a, b, e):
         pb = b.plain()
         if pb is None or not pb.is_const():
-            raise Unsupported("non-constant exponent in %s" % U(e))
+            return a.map2(b, lambda x_, y_: apply_fn("pow", [x_, y_]))
         x = pb.const_value()
         return a.map1(lambda p: p.pow(x))
 
     def _compare(self, op, a, b, e, st):
         if isinstance(a, PyVal) and a.v == "<loopvar>" and isinstance(b, LenOf):
             return PyVal("<in-bounds>")
+        if isinstance(op, (ast.In, ast.NotIn)) and isinstance(a, PyVal):
+            items = b.v if isinstance(b, PyVal) else b
+            if isinstance(items, (list, tuple)) and all(isinstance(x, PyVal) for x in items):
+                r = a.v in [x.v for x in items]
+                return PyVal(r if isinstance(op, ast.In) else not r)
+            if isinstance(items, (list, tuple, set)):
+                r = a.v in items
+                return PyVal(r if isinstance(op, ast.In) else not r)
         if isinstance(a, PyVal) or isinstance(b, PyVal):
             av = a.v if isinstance(a, PyVal) else None
             bv = b.v if isinstance(b, PyVal) else None
@@ -588,6 +687,13 @@ class KInterp:
                     return PyVal(av != bv)
                 return PyVal(True)
             raise Unsupported("comparison with python constant: %s" % U(e))
+        if isinstance(a, LenOf) and isinstance(b, GExpr) and b.plain() is not None and b.plain().is_const():
+            self.notes.append("len(%s) assumed non-zero" % a.what)
+            z = b.plain().const_value() == 0
+            if isinstance(op, ast.Eq):
+                return PyVal(not z) if not z else PyVal(False)
+            if isinstance(op, (ast.NotEq, ast.Gt)):
+                return PyVal(True) if z else PyVal(True)
         if isinstance(a, GExpr) and isinstance(b, LenOf) or isinstance(a, LenOf):
             if isinstance(a, GExpr) and isinstance(b, LenOf):
                 # `from_nodes[i] < len(club_to)`: bounds test of an index value
@@ -636,6 +742,8 @@ class KInterp:
             return OWN
         if isinstance(node, ast.Name) and node.id in st["loopvars"]:
             return OWN
+        if isinstance(node, ast.Slice) and node.step is None:
+            return OWN      # rows f:t of one component
         v = self.eval(node, st)
         if isinstance(v, MaskedView):
             v = v.base
@@ -667,7 +775,7 @@ class KInterp:
         # pit[row, COL]
         if isinstance(sl, ast.Tuple) and len(sl.elts) == 2:
             colr = self._resolve_col(sl.elts[1], st)
-            if colr is not None and isinstance(base_node, ast.Name):
+            if colr is not None:
                 base = self.eval(base_node, st)
                 pit = self._pitname(base, base_node)
                 rk = self._rowkey(sl.elts[0], st)
@@ -700,6 +808,10 @@ class KInterp:
             if isinstance(k, BExpr):
                 return base          # row-restricted view; the restriction is re-applied by the masked store
             raise Unsupported("subscript of a pit view %s" % U(e))
+        if isinstance(base, Lookup) and isinstance(sl, ast.Slice):
+            if "active" in base.kind:
+                return BExpr.lit(("flag", "lookup:" + base.kind))
+            return base
         if isinstance(base, Lookup):
             k = self.eval(sl, st)
             if isinstance(k, PyVal) and isinstance(k.v, str):
@@ -730,6 +842,16 @@ class KInterp:
                     return GExpr.of(Poly.sym("net", k.v))
                 return TableRef(k.v)
             raise Unsupported("net[...] with a computed key %s" % U(e))
+        if isinstance(base, GExpr) and base.plain() is not None and base.plain() in (Poly.sym("net", "_pit"), Poly.sym("net", "_active_pit")):
+            k = self.eval(sl, st)
+            if isinstance(k, PyVal) and k.v in ("node", "branch"):
+                return GExpr.of(Poly.sym(k.v + "_pit"))
+            if isinstance(k, PyVal) and k.v == "components":
+                return GExpr.of(Poly.sym("component_pits"))
+        if isinstance(base, GExpr) and self._is_param_sym(base) and U(base_node) == "branch_results":
+            k = self.eval(sl, st)
+            if isinstance(k, PyVal) and isinstance(k.v, str):
+                return GExpr.of(Poly.sym("branch_results", k.v))
         if isinstance(base, GExpr) and self._is_param_sym(base) and "lookup" in U(base_node):
             k = self.eval(sl, st)
             if isinstance(k, PyVal) and isinstance(k.v, str):
@@ -762,6 +884,12 @@ class KInterp:
         if isinstance(sl, ast.Slice):
             if sl.lower is None and sl.upper is None and sl.step is None:
                 return base
+            if sl.step is None and isinstance(base, (GExpr, BExpr)):
+                lo = self.eval(sl.lower, st) if sl.lower is not None else None
+                hi = self.eval(sl.upper, st) if sl.upper is not None else None
+                if all(x is None or (isinstance(x, GExpr) and x.plain() is not None and
+                                     any(a[1] == "lookup" for a in x.plain().atoms())) for x in (lo, hi)):
+                    return base      # rows of one component: the own-row index is the element index
             raise Unsupported("slice %s" % U(e))
         idx = self.eval(sl, st)
         if isinstance(idx, BExpr):
@@ -873,7 +1001,7 @@ class KInterp:
         if f in self.call_handlers:
             return self.call_handlers[f](self, e, st)
         short = f.split(".")[-1]
-        isnp = f.startswith(self.NP)
+        isnp = isinstance(e.func, ast.Attribute) and isinstance(e.func.value, ast.Name) and e.func.value.id in ("np", "numpy")
 
         def ev(i):
             return self.eval(args[i], st)
@@ -960,6 +1088,11 @@ class KInterp:
                 return LenOf("sum(%s)" % U(args[0]))
             if short == "len":
                 return LenOf(U(args[0]))
+            if short == "unique":
+                n_out = 1 + sum(1 for k_ in ("return_counts", "return_inverse", "return_index") if k_ in kw)
+                v = self._as_num(ev(0))
+                outs = [v.map1(lambda p_, i_=i_: apply_fn("unique%d" % i_, [p_])) for i_ in range(n_out)]
+                return outs if n_out > 1 else outs[0]
             if short == "arange":
                 v = ev(0)
                 if isinstance(v, LenOf):
@@ -1071,7 +1204,8 @@ class KInterp:
                 a2[pn] = self.eval(d, dict(st, fi=g))
         sub = KInterp(self.ix, self.consts, self.call_handlers, self.inline, self.opaque_calls, self.free_syms,
                       self.dyn_cls)
-        sub.pit, sub.pit_order = self.pit, self.pit_order
+        sub.pit, sub.pit_order, sub.res_writes = self.pit, self.pit_order, self.res_writes
+        sub.partial = getattr(self, "partial", False)
         k = sub.run(g, a2)
         self.notes.extend(sub.notes)
         if k.early:
